@@ -569,8 +569,9 @@ class BoolFlow:
     to a fixpoint with switch refinement on whole bool locals.  in_state[bb] is the join over the
     feasible paths from the start; blocks not in in_state are not reachable on those paths."""
 
-    def __init__(self, body, start_bb, start_si, facts):
+    def __init__(self, body, start_bb, start_si, facts, avoid=()):
         self.body = body
+        self.avoid = set(avoid)
         self.in_state = {}
         self.ret_values = []   # (bb, si, value, operand) for every `_0 = Result::Ok(x)` reached
         self._run(start_bb, start_si, dict(facts))
@@ -583,11 +584,17 @@ class BoolFlow:
     def _val(self, st, op):
         c = const_int(op)
         if c is not None:
-            return c if c in (0, 1) else None
+            return c if c in (0, 1) else ("I", c)
         pl = op_place(op)
         if pl is None or pl["p"]:
             return None
         return st.get(pl["l"])
+
+    def _bool(self, st, op):
+        v = self._val(st, op)
+        return v if v in (0, 1) else None
+
+    _TESTS = {"Result::is_ok": ("Ok", 1), "Result::is_err": ("Ok", 0), "Option::is_some": ("Some", 1), "Option::is_none": ("Some", 0)}
 
     def _transfer(self, st, s):
         if s["k"] != "assign":
@@ -601,10 +608,20 @@ class BoolFlow:
         if rv["k"] == "use":
             v = self._val(st, rv["a"][0])
         elif rv["k"] == "un" and rv.get("op") == "Not":
-            x = self._val(st, rv["a"][0])
+            x = self._bool(st, rv["a"][0])
             v = None if x is None else 1 - x
+        elif rv["k"] == "agg" and rv.get("ak") == "adt" and rv.get("is_enum") and rv.get("variant") is not None:
+            # which variant an enum local holds (Ok / Err / Some / None ...): lets `.is_ok()` and `match` be followed
+            v = ("V", rv["variant"], rv.get("vi"))
+        elif rv["k"] in ("ref", "rawptr") and not rv["place"]["p"]:
+            v = ("R", rv["place"]["l"])
+        elif rv["k"] == "discr" and not [p for p in rv["place"]["p"] if p != "*"]:
+            x = st.get(rv["place"]["l"])
+            if isinstance(x, tuple) and x[0] == "R":
+                x = st.get(x[1])
+            v = ("I", x[2]) if isinstance(x, tuple) and x[0] == "V" and x[2] is not None else None
         elif rv["k"] == "bin" and rv.get("op") in ("BitAnd", "BitOr") and rv.get("lty") == "bool":
-            x, y = self._val(st, rv["a"][0]), self._val(st, rv["a"][1])
+            x, y = self._bool(st, rv["a"][0]), self._bool(st, rv["a"][1])
             if rv["op"] == "BitAnd":
                 v = 0 if (x == 0 or y == 0) else (1 if (x == 1 and y == 1) else None)
             else:
@@ -620,6 +637,8 @@ class BoolFlow:
         first = True
         while work:
             bb, si, st = work.pop()
+            if bb in self.avoid:
+                continue
             if not first or si == 0:
                 old = self.in_state.get(bb)
                 if old is not None:
@@ -636,7 +655,11 @@ class BoolFlow:
             t = body.term(bb)
             k = t["k"]
             if k == "switch":
-                v = self._val(st, t["d"]) if t.get("dty") == "bool" else None
+                v = self._val(st, t["d"])
+                if t.get("dty") == "bool":
+                    v = v if v in (0, 1) else None
+                else:
+                    v = v[1] if isinstance(v, tuple) and v[0] == "I" else None
                 targets = []
                 if v is None:
                     targets = [a[1] for a in t["arms"]] + [t["otherwise"]]
@@ -661,6 +684,21 @@ class BoolFlow:
                 d = t.get("dest")
                 if d is not None and not d["p"]:
                     st.pop(d["l"], None)
+                    cal = short(norm(t.get("callee"))) if t.get("callee") else None
+                    if cal == "FromResidual::from_residual":
+                        # `?` on the failure side: the value built is the failure variant of the function's return type
+                        ty = body.local_ty(d["l"]).strip()
+                        if ty.startswith(("std::result::Result<", "core::result::Result<")):
+                            st[d["l"]] = ("V", "Err", 1)
+                        elif ty.startswith(("std::option::Option<", "core::option::Option<")):
+                            st[d["l"]] = ("V", "None", 0)
+                    tst = self._TESTS.get(cal)
+                    if tst and t.get("args"):
+                        x = self._val(st, t["args"][0])
+                        if isinstance(x, tuple) and x[0] == "R":
+                            x = st.get(x[1])
+                        if isinstance(x, tuple) and x[0] == "V":
+                            st[d["l"]] = tst[1] if x[1] == tst[0] else 1 - tst[1]
             if k == "yield":
                 ra = t.get("resume_arg")
                 if ra is not None and not ra["p"]:
@@ -734,6 +772,13 @@ def feasible_after(body, site, equal):
     sb, ssi, res, eqv, _ = site
     flow = BoolFlow(body, sb, ssi, {res: eqv if equal else 1 - eqv})
     return set(flow.in_state.keys()) | ({sb} if ssi else set())
+
+
+def feasible_from_entry(body, avoid=()):
+    """Blocks that can execute on some path from the entry that never enters a block of `avoid`, with the same
+    three-valued / variant propagation (a `?` failure is known to be `Err`, so `if r.is_ok()` after it is decided)."""
+    flow = BoolFlow(body, 0, 0, {}, avoid=avoid)
+    return set(flow.in_state.keys())
 
 
 # ---------------------------------------------------------------------------------------------
